@@ -166,3 +166,17 @@ def skip_known(ctx, text, res, names=None):
             ctx.count('known_trigger:' + name)
             return True
     return False
+
+
+def identifier_escape_texts():
+    """identifiers spelled with escape sequences: well formed and allowed, well formed but standing for a
+    character that may not appear there, malformed - at every position of a name, in several contexts"""
+    escs = ['\\u0061', '\\u00e9', '\\u0030', '\\u200c', '\\u0301', '\\u203f', '\\u0024', '\\u005f',
+            '\\u0020', '\\u005c', '\\u002e', '\\u2028', '\\u002d', '\\u00zz', '\\u12', '\\x41', '\\',
+            '\\u{61}', '\\U0061', '\\u0069f']
+    for esc in escs:
+        for name in ('%s', 'a%s', 'a%sb', 'ab1%s', '%sb', '\\u0061%s', 'a%s\\u0062', '$_%sx'):
+            for ctxt in ('%s', 'x = %s;', 'var %s = 1', 'a.%s', 'f(%s)', '({%s: 1})', 'function %s() {}',
+                         '%s: for (;;) break %s', 'x = {get %s() {}}', 'try {} catch (%s) {}', 'x = %s in y',
+                         'typeof %s'):
+                yield ctxt.replace('%s', name % esc)
